@@ -309,6 +309,14 @@ Qed.
 Lemma from_parts_ok s e p : s <= e -> of_opt (from_parts s e p) = Ok (R s e p).
 Proof. intros L. unfold from_parts. rewrite Z.geb_leb. destruct (Z.leb_spec s e); [reflexivity|lia]. Qed.
 
+Lemma verify_end_eq t ms : 0 <= t < 4294967295 -> 0 <= ms <= Z.max (t - PRUNING_DEPTH) 0 ->
+  Z.min (hadd (Z.max (t - PRUNING_DEPTH) 0) 1) (hadd (ms + 1) VERIFY_LOOKAHEAD)
+  = Z.min (Z.max (t - PRUNING_DEPTH) 0 + 1) (ms + 1 + VERIFY_LOOKAHEAD).
+Proof. unfold hadd, u32_max, PRUNING_DEPTH, VERIFY_LOOKAHEAD. lia. Qed.
+Lemma verify_end_le t ms : ms <= Z.max (t - PRUNING_DEPTH) 0 ->
+  ms + 1 <= Z.min (Z.max (t - PRUNING_DEPTH) 0 + 1) (ms + 1 + VERIFY_LOOKAHEAD).
+Proof. unfold PRUNING_DEPTH, VERIFY_LOOKAHEAD. lia. Qed.
+
 (** the plan's last entry is the Verify range exactly when the documented rule asks for one *)
 Lemma tip_plan_verify c t : ctx_ok c t ->
   exists p, tip_plan c t = Ok p /\
@@ -349,10 +357,8 @@ Proof.
       * rewrite (from_parts_ok (ms + 1) (t + 1) ChainTip) by lia. cbn [bind]. eexists; split; [reflexivity|].
         exists [R mts (t + 1) ChainTip], (R (ms + 1) (t + 1) ChainTip). split; [reflexivity|]. cbn [rp]. split; [discriminate|].
         intros _. destruct (Z.leb_spec ms (Z.max (t - PRUNING_DEPTH) 0)); [lia|reflexivity].
-      * assert (HV : Z.min (hadd (Z.max (t - PRUNING_DEPTH) 0) 1) (hadd (ms + 1) VERIFY_LOOKAHEAD)
-                     = Z.min (Z.max (t - PRUNING_DEPTH) 0 + 1) (ms + 1 + VERIFY_LOOKAHEAD)).
-        { unfold hadd, u32_max, PRUNING_DEPTH, VERIFY_LOOKAHEAD in *. lia. }
-        rewrite HV. rewrite (from_parts_ok (ms + 1) _ Verify) by (unfold VERIFY_LOOKAHEAD; lia). cbn [bind].
+      * pose proof (verify_end_eq t ms Ut (conj (proj1 Um) Le)) as HV.
+        rewrite HV. rewrite (from_parts_ok (ms + 1) (Z.min (Z.max (t - PRUNING_DEPTH) 0 + 1) (ms + 1 + VERIFY_LOOKAHEAD)) Verify) by (apply verify_end_le; exact Le). cbn [bind].
         eexists; split; [reflexivity|]. eexists [R mts (t + 1) ChainTip], _. split; [reflexivity|]. cbn [rs re rp].
         split; [|intros V; exfalso; apply V; reflexivity]. intros _.
         destruct (Z.leb_spec ms (Z.max (t - PRUNING_DEPTH) 0)); [|lia]. cbn [andb]. reflexivity.
